@@ -16,6 +16,7 @@ Not claimed here (runtime behaviour of the delegated integrator, sampled by C06)
 the invariants at their initial values to solver tolerance.
 -/
 import ChemModel.Proofs.Kinetics
+import ChemModel.Props.C04
 
 set_option linter.unusedSectionVars false
 
@@ -310,6 +311,80 @@ theorem violation_helpers (r : Reaction σ ρ) (subs : Substances σ A) (ks : Li
   intro x hx
   obtain ⟨key, hk, rfl⟩ := List.mem_map.mp hx
   simp [hz key hk]
+
+section GeneratedRhs
+/-! ### C04 ∘ C05: the GENERATED ODE right-hand side conserves the reported composition vectors
+
+`invariants_exact` is about `ReactionSystem.rates`; this is the same statement for the expressions `get_odesys` builds
+(C04's model `buildRhs`, theorem `C04.rhs_is_kinetic_model`): for every accepted build without CSTR of a system whose
+substances all carry compositions and whose reactions are balanced, every reported composition row `B_k` annihilates the vector
+of generated expressions under EVERY binding `env` of the symbols: `Σ_i φ(B_k[i]) · ev env exprs[i] = 0` — i.e. `B·exprs ≡ 0`
+as polynomials evaluated anywhere, for every parameter mode of the builder (inlined, free, substituted). -/
+open ChemModel.OdeBuild
+
+variable {A : Type} [CommRing A] [DecidableEq A] {R : Type} [CommRing R] [Algebra ℚ R]
+
+/-- the reaction of C04's model as a reaction of the kinetics model, with the rate constant it has under `env` -/
+def kinOf (subs : List (String × ℚ)) (env : String → R) (r : Rxn) : Reaction String R :=
+  { reac := r.reac, prod := r.prod, inactReac := r.inactReac, inactProd := r.inactProd, param := kOf subs env r.param }
+
+theorem kineticRhs_eq_sum (subs : List (String × ℚ)) (env : String → R) (rxns : List Rxn) (s : String) :
+    kineticRhs subs false env rxns s = ((rxns.map (kinOf subs env)).map fun r => contribution env r s).sum := by
+  unfold kineticRhs
+  simp only [Bool.false_eq_true, if_false, add_zero, List.map_map]
+  congr 1
+
+/-- **The generated ODE right-hand side conserves the reported composition vectors** (C04 ∘ C05). -/
+theorem generated_rhs_conserves (φ : A →+* R) (comps : Substances String A) (cfg : Cfg) (sys : Sys) (o : OdeSys)
+    (hkeys : dkeys comps = sys.subst) (hnd : sys.subst.Nodup) (hsub : (dkeys cfg.subs).Nodup)
+    (hcstr : cfg.cstr = false)
+    (h : buildRhs cfg sys = .ok o) (hnc : noCapture sys (dkeys cfg.subs) cfg.cstr = true) (env : String → R)
+    (hbind : cfg.includeParams = false → ∀ r ∈ sys.rxns, ∀ uk k, r.param = .named uk k → uk ∉ dkeys cfg.subs →
+      env uk = algebraMap ℚ R k)
+    (hall : ∀ sc ∈ comps, ∃ comp, sc.2 = some comp) (hne : comps ≠ [])
+    (hacc : checkBalance comps (sys.rxns.map (kinOf cfg.subs env)) false = .ok) :
+    ∃ B ck, compositionBalanceVectors comps = .ok (B, ck) ∧
+      ∀ row ∈ B, (List.zipWith (fun b e => φ b * ev env e) row o.exprs).sum = 0 := by
+  obtain ⟨hnames, hlen, _, hexpr⟩ := ChemModel.C04.rhs_is_kinetic_model cfg sys o hnd hsub h hnc env hbind
+  have hnone := firstWithoutComposition_eq_none_iff.mpr hall
+  have hbal := (accept_iff_balanced comps (sys.rxns.map (kinOf cfg.subs env)) false hall (Or.inl hne)).mp hacc
+  refine ⟨_, _, compositionBalanceVectors_eq comps hnone, ?_⟩
+  intro row hrow
+  obtain ⟨key, _, rfl⟩ := List.mem_map.mp hrow
+  -- the expressions evaluate to the kinetic model, substance by substance
+  have hev : o.exprs.map (ev env) = comps.map fun sc => kineticRhs cfg.subs false env sys.rxns sc.1 := by
+    apply List.ext_getElem?
+    intro i
+    simp only [List.getElem?_map]
+    have hs : sys.subst[i]? = (comps[i]?).map Prod.fst := by rw [← hkeys]; simp [dkeys]
+    cases hc : comps[i]? with
+    | none =>
+      have : o.exprs[i]? = none := by
+        rw [List.getElem?_eq_none_iff, hlen, ← hkeys]
+        simpa [dkeys] using List.getElem?_eq_none_iff.mp hc
+      simp [this]
+    | some sc =>
+      rw [hc] at hs
+      obtain ⟨e, he, hv⟩ := hexpr i sc.1 (by simpa using hs)
+      rw [he, hcstr] at *
+      simp [hv]
+  have hz : List.zipWith (fun b e => φ b * ev env e) (comps.map fun sc => compAt sc key) o.exprs =
+      comps.map fun sc => φ (compAt sc key) * ((sys.rxns.map (kinOf cfg.subs env)).map fun r => contribution env r sc.1).sum := by
+    have : List.zipWith (fun b e => φ b * ev env e) (comps.map fun sc => compAt sc key) o.exprs =
+        List.zipWith (fun b v => φ b * v) (comps.map fun sc => compAt sc key) (o.exprs.map (ev env)) := by
+      rw [List.zipWith_map_right]
+    rw [this, hev, List.zipWith_map, List.zipWith_self]
+    apply List.map_congr_left
+    intro sc _
+    rw [kineticRhs_eq_sum]
+  rw [hz, weighted_rates_eq]
+  apply List.sum_eq_zero
+  intro x hx
+  obtain ⟨r, hr, rfl⟩ := List.mem_map.mp hx
+  have : compSum r key comps = 0 := hbal r hr key
+  simp [this]
+
+end GeneratedRhs
 
 /-! ### The hypotheses are satisfiable: water formation / autoprotolysis -/
 
